@@ -1028,12 +1028,18 @@ func Close[T any](ch chan<- T) {
 	cs.closed = true
 }
 
-func Len[T any](ch chan T) int {
-	cs := stateOfSend((chan<- T)(ch))
-	if cs == nil {
+// Len is len(ch) for a channel of any direction (the scheduler owns the buffer).
+func Len(ch any) int {
+	v := reflect.ValueOf(ch)
+	if v.Kind() != reflect.Chan || v.IsNil() {
 		return 0
 	}
-	return len(cs.buf)
+	e := cur
+	curTask()
+	if cs, ok := e.chans[v.Pointer()]; ok && !cs.foreign {
+		return len(cs.buf)
+	}
+	return v.Len()
 }
 
 // Cancel is a context.CancelFunc call: a scheduling point, then the real cancel as local code.
